@@ -2321,6 +2321,7 @@ class QuicConnection:
             )
 
         # process data
+        already_finished = stream.receiver.is_finished
         try:
             event = stream.receiver.handle_frame(frame)
         except FinalSizeError as exc:
@@ -2329,7 +2330,9 @@ class QuicConnection:
                 frame_type=frame_type,
                 reason_phrase=str(exc),
             )
-        if event is not None:
+        if event is not None and not already_finished:
+            # a retransmitted frame for a stream whose receiving part has
+            # already finished must not signal the end of the stream again
             self._events.append(event)
         self._local_max_data.used += newly_received
 
